@@ -1,6 +1,7 @@
 """C15 -- g-estimation of structural nested mean models returns the root of its estimating equations."""
 import itertools
 import math
+import re
 from fractions import Fraction
 
 import numpy as np
@@ -27,6 +28,47 @@ ASSUMPTIONS = ['statsmodels GLM (Binomial, optional freq_weights) returns fitted
 SNMS = {1: 'A', 2: 'A + A:V', 3: 'A + A:V + A:W'}
 EXPO = ['V + W + L', 'V + L', 'L + Z', 'V + W + L + Z', 'V + W + Z']
 MISS = ['none', 'dropped', 'model_stab', 'model_unstab']
+HISTORIES = ['snm_before', 'refit', 'exposure_before', 'search_before']
+
+
+def make_snm(rng, p, variant):
+    """how the structural nested model is *written*: variant 0 = product terms first / factors swapped, plain
+    modifiers; 1 = canonical order, stateful patsy transforms (center / standardize are memorised on the rows the
+    design is built from); 2 = random modifiers, random order.  psi is always judged by label."""
+    if p == 1:
+        return 'A'
+    if variant == 0:
+        mods = ['V', 'W'][:p - 1]
+    elif variant == 1:
+        mods = ['center(V)', 'standardize(W)'][:p - 1]
+    else:
+        mods = [str(rng.choice(['V', 'center(V)'])), str(rng.choice(['W', 'standardize(W)', 'center(L)']))][:p - 1]
+    swap = variant != 1
+    terms = ['A'] + [('%s:A' % m) if (swap and rng.uniform() < 0.3) else ('A:%s' % m) for m in mods]
+    if variant == 0:
+        terms = terms[::-1]
+    elif variant == 2:
+        terms = [terms[i] for i in rng.permutation(len(terms))]
+    return ' + '.join(terms)
+
+
+def term_key(label):
+    return frozenset(f.strip() for f in label.split(':'))
+
+
+def label_column(cc, label):
+    """the effect-modifier column V_j named by a psi label, computed on the analysed rows `cc`"""
+    fs = [f.strip() for f in label.split(':') if f.strip() != 'A']
+    if not fs:
+        return np.ones(len(cc))
+    if len(fs) != 1:
+        raise ValueError('unexpected psi label %r' % label)
+    m = re.fullmatch(r'(center|standardize)\((\w+)\)', fs[0])
+    if m:
+        x = cc[m.group(2)].values.astype(float)
+        x = x - x.mean()
+        return x / x.std(ddof=0) if m.group(1) == 'standardize' else x
+    return cc[fs[0]].values.astype(float)
 
 
 def expit(x):
@@ -59,11 +101,18 @@ def gen_data(rng, ytype, missing, saturated=False, force_n=None):
             df.loc[df.index[0], 'Y'] = np.nan
     if rng.uniform() < 0.3:      # missing covariates: those rows are dropped by the estimator
         df.loc[rng.uniform(size=n) < 0.04, 'L' if not saturated else 'Z'] = np.nan
-    mode = rng.integers(0, 3)
+    # container variance: fixed-width integer columns for exposure / modifiers, permuted / shifted / string index
+    kind = int(rng.integers(0, 4))
+    if kind:
+        for c in ('A', 'V', 'W'):
+            df[c] = df[c].astype(['int64', 'int32', 'int8'][kind - 1])
+    mode = rng.integers(0, 4)
     if mode == 1:
         df.index = rng.permutation(n)
     elif mode == 2:
         df.index = np.arange(n) + int(rng.integers(5, 500))
+    elif mode == 3:
+        df.index = ['id%04d' % i for i in rng.permutation(n)]
     return df
 
 
@@ -119,32 +168,57 @@ def reference(chk, df, expo, weights, missing, miss_den, ipmw_in_use=None):
             'ipmw': ipmw_ref, 'h_ok': h_ok, 'weighted': w is not None}
 
 
-def run_impl(df, expo, p, weights, missing, miss_den, solver='closed', **kw):
+def run_impl(df, expo, p, weights, missing, miss_den, solver='closed', snm=None, history='auto', **kw):
+    """history: what happened to the object before the judged fit (a result must depend on the last specification
+    only): 'snm_before:<q>' fitted with another structural model, 'refit' fitted twice, 'exposure_before' fitted with
+    another exposure model, 'search_before' a (truncated) search fit first, 'fit_then_missing_model' fitted, then the
+    missing-outcome model specified, then fitted again; 'auto' draws one of them in about half of the cases."""
     from zepid.causal.snm import GEstimationSNM
     import warnings
     warnings.simplefilter('ignore')     # statsmodels re-arms PerfectSeparationWarning inside the search loop
+    snm = snm or SNMS[p]
+    mm = missing in ('model_stab', 'model_unstab')
+    hr = getattr(run_impl, 'rng', None)
+    if history == 'auto':
+        history = None
+        if hr is not None and hr.uniform() < 0.5:
+            history = str(hr.choice(HISTORIES + (['fit_then_missing_model'] * 3 if mm else [])))
+            if history == 'snm_before':
+                history += ':%d' % int(hr.choice([q for q in SNMS if q != p]))
     g = GEstimationSNM(df, exposure='A', outcome='Y', weights='wt' if weights else None)
     g.exposure_model(expo, print_results=False)
-    g.structural_nested_model(SNMS[p])
-    if missing in ('model_stab', 'model_unstab'):
+    g.structural_nested_model(snm)
+
+    def miss():
         g.missing_model(miss_den, stabilized=(missing == 'model_stab'), print_results=False)
-    # history: in about a third of the cases the object has already been fitted with ANOTHER structural model
-    # (a result must depend on the last specification only; stale term lists / solver state show up here)
-    g._verif_history = None
-    hr = getattr(run_impl, 'rng', None)
-    if hr is not None and hr.uniform() < 0.34:
-        p0 = int(hr.choice([q for q in SNMS if q != p]))
-        g.structural_nested_model(SNMS[p0])
+    if history == 'fit_then_missing_model':
         g.fit(solver='closed')
-        g.structural_nested_model(SNMS[p])
-        g._verif_history = 'fitted before with %r (closed)' % SNMS[p0]
+        miss()
+    else:
+        if mm:
+            miss()
+        if history and history.startswith('snm_before'):
+            g.structural_nested_model(SNMS[int(history.split(':')[1])])
+            g.fit(solver='closed')
+            g.structural_nested_model(snm)
+        elif history == 'refit':
+            g.fit(solver='closed')
+        elif history == 'exposure_before':
+            g.exposure_model('W', print_results=False)
+            g.fit(solver='closed')
+            g.exposure_model(expo, print_results=False)
+        elif history == 'search_before':
+            g.fit(solver='search', maxiter=2)
+    g._verif_history = history
     g.fit(solver=solver, **kw)
     return g
 
 
-def design(cc, p):
-    cols = [np.ones(len(cc)), cc['V'].values, cc['W'].values][:p]
-    return np.column_stack(cols)
+def design(cc, labels):
+    """design rows V_i in the order of the reported psi labels (an int p means the canonical A, A:V, A:W)"""
+    if isinstance(labels, int):
+        labels = ['A', 'A:V', 'A:W'][:labels]
+    return np.column_stack([label_column(cc, lab) for lab in labels])
 
 
 def exact_esteq(a, y, pi, w, Vm, psi):
@@ -173,33 +247,47 @@ def driver_args(a, y, pi, w, Vm):
 
 
 def frame_record(df):
-    return {'index': [int(i) for i in df.index], 'columns': {c: [None if (isinstance(x, float) and math.isnan(x))
-                                                                  else float(x) for x in df[c]] for c in df.columns}}
+    return {'index': [i if isinstance(i, str) else int(i) for i in df.index],
+            'dtypes': {c: str(df[c].dtype) for c in df.columns},
+            'columns': {c: [None if (isinstance(x, float) and math.isnan(x)) else float(x) for x in df[c]]
+                        for c in df.columns}}
 
 
 def frame_from_record(rec):
-    return pd.DataFrame({c: [np.nan if x is None else x for x in v] for c, v in rec['columns'].items()},
-                        index=rec['index'])
+    df = pd.DataFrame({c: [np.nan if x is None else x for x in v] for c, v in rec['columns'].items()},
+                      index=rec['index'])
+    for c, t in rec.get('dtypes', {}).items():
+        df[c] = df[c].astype(t)
+    return df
 
 
-def check_closed(chk, drv, df, ytype, p, weights, missing, expo, miss_den, seedinfo):
+def check_closed(chk, drv, df, ytype, p, weights, missing, expo, miss_den, seedinfo, snm=None):
+    snm = snm or SNMS[p]
     cell = (ytype, p, bool(weights), missing)
-    case = {'kind': 'closed', 'ytype': ytype, 'snm': SNMS[p], 'weights': bool(weights), 'missing': missing,
+    case = {'kind': 'closed', 'ytype': ytype, 'snm': snm, 'weights': bool(weights), 'missing': missing,
             'exposure_model': expo, 'missing_model': miss_den, 'n': len(df), 'data': frame_record(df),
             'seedinfo': seedinfo}
     try:
-        g = run_impl(df, expo, p, weights, missing, miss_den)
+        g = run_impl(df, expo, p, weights, missing, miss_den, snm=snm)
         psi = np.asarray(g.psi, dtype=float)
+        labels = [str(x) for x in g.psi_labels]
+        case['history'] = g._verif_history
         err = None
     except Exception as e:       # noqa: BLE001  -- any exception on valid input is a finding
-        psi, err, g = None, '%s: %s' % (type(e).__name__, e), None
+        psi, err, g, labels = None, '%s: %s' % (type(e).__name__, e), None, None
+    want_keys = sorted(map(sorted, (term_key(t) for t in snm.split(' + '))))
+    if err is None and not (len(psi) == p and sorted(map(sorted, map(term_key, labels))) == want_keys):
+        chk.case(case)
+        chk.d(False, 'psi_labels name exactly the terms of the SNM, one psi each', dict(case, psi_labels=labels))
+        return None
     ref = reference(chk, df, expo, weights, missing, miss_den, ipmw_in_use=None if g is None else g.ipmw)
     if not ref['h_ok']:
         chk.discard('reference exposure-model fit failed its score equations / separation')
         return None
     cc = ref['cc']
-    Vm = design(cc, p)
-    a, y, pi, w = cc['A'].values, cc['Y'].values, ref['pi'], ref['w']
+    Vm = design(cc, labels if labels is not None else p)
+    case['psi_labels'] = labels
+    a, y, pi, w = cc['A'].values.astype(float), cc['Y'].values.astype(float), ref['pi'], ref['w']
     d = (a - pi) * w
     Sf = (Vm * (a * d)[:, None]).T @ (Vm * a[:, None])
     cond = np.linalg.cond(Sf) if np.all(np.isfinite(Sf)) else np.inf
@@ -208,15 +296,30 @@ def check_closed(chk, drv, df, ytype, p, weights, missing, expo, miss_den, seedi
         return None
     case['impl_psi'] = None if psi is None else [float(x) for x in psi]
     case['impl_error'] = err
-    arms_ok = all(len(set(cc.loc[cc[m] == lv, 'A'])) == 2 for m in ['V', 'W'][:p - 1] for lv in set(cc[m]))
+    arms_ok = all(len(set(cc.loc[cc[m] == lv, 'A'])) == 2 for m in ['V', 'W'] if ('A:%s' % m) in (labels or [])
+                  for lv in set(cc[m]))
     nontriv = psi is not None and arms_ok and float(np.max(np.abs(psi))) > 1e-6
     chk.case(case, (cell, hash(df.to_csv())) if nontriv else None,
              sample={k: v for k, v in case.items() if k != 'data'} if chk.evals % 23 == 0 else None)
     chk.count('cell:%s/%s/%s/%s' % (ytype, SNMS[p].replace(' ', ''), 'w' if weights else 'nw', missing))
+    chk.count('snm_written:' + snm.replace(' ', ''))
+    chk.count('history:%s' % (case.get('history') or 'fresh').split(':')[0])
     chk.d(err is None, 'GEstimationSNM.fit(closed) runs on valid input', case)
     if err is not None:
         return None
-    chk.d(list(g.psi_labels) == ['A', 'A:V', 'A:W'][:p] and len(psi) == p, 'psi_labels / length match the SNM', case)
+    # ---- D: history independence -- the same specification on a fresh object gives the same psi (by label)
+    if case.get('history'):
+        try:
+            g2 = run_impl(df, expo, p, weights, missing, miss_den, snm=snm, history=None)
+            fresh = dict(zip(map(str, g2.psi_labels), np.asarray(g2.psi, dtype=float)))
+            ok = set(fresh) == set(labels) and all(close(fresh[l], q, rtol=1e-9, atol=1e-11)
+                                                    for l, q in zip(labels, psi))
+            case['fresh_psi'] = {k: float(v) for k, v in fresh.items()}
+        except Exception as e:       # noqa: BLE001
+            ok = False
+            case['fresh_error'] = repr(e)
+        chk.d(ok, 'psi after a history of earlier fits / respecifications = psi of a fresh object with the last '
+              'specification', case)
     # ---- K nuisance layer: the weights zEpid built are the documented ones
     if ref['ipmw'] is not None:
         gi = np.asarray(g.ipmw, dtype=float)
@@ -250,7 +353,7 @@ def check_closed(chk, drv, df, ytype, p, weights, missing, expo, miss_den, seedi
             ok2 = me == E and ml == E       # exact: both sides are exact rational evaluations
         chk.k(ok2, 'estimating function: model estEq = harness predicate = rha - lhm psi (exact)',
               {'case': case, 'model': {k: str(v)[:200] for k, v in rep2.items()}})
-    return {'g': g, 'psi': psi, 'ref': ref, 'Vm': Vm, 'case': case}
+    return {'g': g, 'psi': psi, 'labels': labels, 'snm': snm, 'ref': ref, 'Vm': Vm, 'case': case}
 
 
 def check_search(chk, df, ytype, p, weights, missing, expo, miss_den, closed, start_mode):
@@ -264,14 +367,24 @@ def check_search(chk, df, ytype, p, weights, missing, expo, miss_den, closed, st
     case = dict(closed['case'])
     case.update({'kind': 'search', 'start': start})
     try:
-        g = run_impl(df, expo, p, weights, missing, miss_den, solver='search', starting_value=start, maxiter=600)
+        g = run_impl(df, expo, p, weights, missing, miss_den, solver='search', snm=closed['snm'],
+                     starting_value=start, maxiter=600)
         res = g._scipy_solver_obj
         psi_s = np.asarray(g.psi, dtype=float)
+        labels_s = [str(x) for x in g.psi_labels]
     except Exception as e:       # noqa: BLE001
         chk.case(case)
         chk.d(False, 'GEstimationSNM.fit(search) runs on valid input', dict(case, impl_error=repr(e)))
         return
     case['search_psi'] = [float(x) for x in psi_s]
+    case['search_labels'] = labels_s
+    if sorted(labels_s) != sorted(closed['labels']) or len(psi_s) != len(labels_s):
+        chk.case(case)
+        chk.d(False, 'search solver: psi_labels name exactly the terms of the SNM, one psi each', case)
+        return
+    # judge by label: psi of the search solver re-ordered to the closed form's label order
+    by_label = dict(zip(labels_s, psi_s))
+    psi_s = np.array([by_label[l] for l in closed['labels']], dtype=float)
     case['history'] = getattr(g, '_verif_history', None)
     case['search_fun'] = float(res.fun)
     case['search_nit'] = int(res.nit)
@@ -356,7 +469,7 @@ def check_singular(chk, drv, rng):
     case = {'kind': 'singular', 'data': frame_record(df)}
     chk.case(case, ('singular', hash(df.to_csv())))
     try:
-        run_impl(df, 'W + L', 2, False, 'none', None)
+        run_impl(df, 'W + L', 2, False, 'none', None, history=None)
         impl = 'ok'
     except np.linalg.LinAlgError:
         impl = 'singular'
@@ -400,8 +513,11 @@ def run(chk, drv, rng, tier):
             df = gen_data(rng, ytype, missing)
             expo = EXPO[int(rng.integers(0, len(EXPO)))]
             miss_den = ['A + L', 'A + V + L', 'A + W'][int(rng.integers(0, 3))]
+            # how the SNM is written rotates with the repetition: product-first / swapped factors, stateful
+            # transforms, random
+            snm = make_snm(rng, p, rep % 3)
             res = check_closed(chk, drv, df, ytype, p, weights, missing, expo, miss_den,
-                               {'rep': rep, 'tier': tier})
+                               {'rep': rep, 'tier': tier}, snm=snm)
             if res is not None and rep == 0:
                 keep[(ytype, p, weights, missing)] = (df, expo, miss_den, res)
     # saturated stream
@@ -447,23 +563,27 @@ def replay(rec):
         if case.get('kind') == 'singular':
             print('singular case; impl =', case.get('impl'))
             continue
-        p = {v: k for k, v in SNMS.items()}[case['snm']]
+        p = len(case['snm'].split(' + '))
         chk = common.Check('C15', 'replay', 0)
         with common.quiet():
-            g = run_impl(df, case['exposure_model'], p, case['weights'], case['missing'], case['missing_model'])
+            g = run_impl(df, case['exposure_model'], p, case['weights'], case['missing'], case['missing_model'],
+                         snm=case['snm'], history=case.get('history'))
             ref = reference(chk, df, case['exposure_model'], case['weights'], case['missing'], case['missing_model'],
                             ipmw_in_use=g.ipmw)
         cc = ref['cc']
-        E, S = exact_esteq(cc['A'].values, cc['Y'].values, ref['pi'], ref['w'], design(cc, p), g.psi)
+        E, S = exact_esteq(cc['A'].values, cc['Y'].values, ref['pi'], ref['w'],
+                           design(cc, [str(x) for x in g.psi_labels]), g.psi)
         rel = [abs(float(e)) / max(float(s), 1e-300) for e, s in zip(E, S)]
         print('what:', f['what'])
+        print('  history:', case.get('history'), ' fresh psi:', case.get('fresh_psi'))
         print('  cell:', case['ytype'], case['snm'], 'weights=%s' % case['weights'], 'missing=%s' % case['missing'],
               'exposure_model=%r' % case['exposure_model'], 'n=%d' % len(df))
         print('  psi (closed):', list(map(float, g.psi)), ' relative residual of the estimating equations:', rel)
         if case.get('kind') == 'search':
             with common.quiet():
                 gs = run_impl(df, case['exposure_model'], p, case['weights'], case['missing'], case['missing_model'],
-                              solver='search', starting_value=case.get('start'), maxiter=600)
+                              solver='search', snm=case['snm'], history=case.get('history'),
+                              starting_value=case.get('start'), maxiter=600)
             print('  psi (search):', list(map(float, gs.psi)), 'objective', float(gs._scipy_solver_obj.fun))
         if 'stratified_closed_form' in case:
             print('  stratified closed form:', case['stratified_closed_form'])
